@@ -531,6 +531,7 @@ class StmtMixin:
         s2.loops = dict(st.loops)
         s2.cur_loop = list(st.cur_loop)
         s2.exc = st.exc
+        s2.qdepth = st.qdepth
         return s2
 
     def havoc_written(self, written, st, n):
